@@ -84,6 +84,9 @@ type GenOpts struct {
 	// ForceStrLen, if >= 0, is used for the first string/bytes field met (then reset to -1).
 	ForceStrLen int
 	Simple      bool // small values everywhere (used for big fan-outs)
+	// ForceVecLen, if > 0, is the length of the first vector met (then reset); its elements are generated at
+	// the depth limit (cheapest constructors), so that a vector of hundreds of siblings stays small.
+	ForceVecLen int
 }
 
 var DefaultStrLens = []int{0, 0, 1, 2, 3, 4, 5, 7, 8, 11, 100, 252, 253, 254, 255, 256, 257, 1000}
@@ -269,6 +272,21 @@ func (s *Schema) GenType(t *TypeExpr, o *GenOpts) *Value {
 
 func (s *Schema) genType(t *TypeExpr, o *GenOpts, depth int) *Value {
 	if t.Vector {
+		if o.ForceVecLen > 0 {
+			n := o.ForceVecLen
+			o.ForceVecLen = 0
+			v := &Value{Kind: KVec, Elems: make([]Value, 0, n)}
+			sub := *o
+			sub.Simple = true
+			for i := 0; i < n; i++ {
+				d := depth + 1
+				if d < o.MaxDepth {
+					d = o.MaxDepth
+				}
+				v.Elems = append(v.Elems, *s.genType(t.Elem, &sub, d))
+			}
+			return v
+		}
 		n := o.vecLen(depth)
 		v := &Value{Kind: KVec, Elems: make([]Value, 0, n)}
 		for i := 0; i < n; i++ {
